@@ -636,6 +636,7 @@ func runDisk(ch *simrt.Chooser, opt Options) RunResult {
 			k := 2 + s.Draw("readers", 4)
 			type job struct {
 				path string
+				text string // (parsed for comparison only after the concurrent phase: the readers find the parser as cold as the process is)
 				want outcome
 				got  outcome
 			}
@@ -645,7 +646,7 @@ func runDisk(ch *simrt.Chooser, opt Options) RunResult {
 				if len(jd) > 20000 {
 					jd = "{\"k\":" + strconv.Itoa(i) + "}"
 				}
-				jobs[i] = &job{path: d.store([]byte(jd)), want: parseObj(jd)}
+				jobs[i] = &job{path: d.store([]byte(jd)), text: jd}
 			}
 			var wg simrt.WaitGroup
 			wg.Add(k)
@@ -658,6 +659,9 @@ func runDisk(ch *simrt.Chooser, opt Options) RunResult {
 				})
 			}
 			wg.Wait()
+			for _, j := range jobs {
+				j.want = parseObj(j.text)
+			}
 			fired("concurrent-readers")
 			res.Faults = append(res.Faults, fmt.Sprintf("%d concurrent ParseFile calls on different files", k))
 			for i, j := range jobs {
